@@ -219,7 +219,10 @@ func genHTTPCase(r *rand.Rand) HTTPCase {
 		}
 		ob, _ := json.Marshal(ops)
 		paths := []string{"variables.f", "variables.fs.0", "variables.fs.1", "variables.o.f", "variables.o.l.0.f", "variables.nested.0.0", "variables.s", "variables.fs", "variables.fs.2", "variables.fs.-1", "variables.fs.x",
-			"variables.missing", "variables", "", "variables.o", "vars.f", "variables.f.g", "variables.fs.+1", "variables.fs.01", "variables.fs.-0", "variables..f", "0", "-1.variables.f", "9.variables.f"}
+			"variables.missing", "variables", "", "variables.o", "vars.f", "variables.f.g", "variables.fs.+1", "variables.fs.01", "variables.fs.-0", "variables..f", "0", "-1.variables.f", "9.variables.f",
+			// indexes around the limits of the machine's integers
+			"variables.fs.9223372036854775807", "variables.fs.9223372036854775808", "variables.fs.18446744073709551615", "variables.fs.18446744073709551616", "variables.fs.-9223372036854775808",
+			"variables.nested.0.18446744073709551615", "18446744073709551615.variables.f", "9223372036854775808.variables.f", "4294967296.variables.f", "variables.fs.4294967297"}
 		m := map[string][]string{}
 		nfiles := 1 + r.Intn(2)
 		for fi := 0; fi < nfiles; fi++ {
